@@ -395,6 +395,15 @@ func executeHostile(t *testing.T, prop string, seed uint64, p *HostilePlan) *cor
 	back := hostileBytes(seed, "b", p.Back, b, &p.Base)
 	sc := simnet.NewScript(in)
 	sc.Chunks = p.Chunks
+	// how deep the library's own calls nest when it reaches for more input: a
+	// constant, whatever the input was so far
+	deepest, reads := 0, 0
+	sc.OnRead = func() {
+		if reads++; reads%16 == 0 {
+			var pcs [192]uintptr
+			deepest = max(deepest, runtime.Callers(0, pcs[:]))
+		}
+	}
 	calls := 0
 	var ms0, ms1 runtime.MemStats
 	runtime.ReadMemStats(&ms0)
@@ -473,6 +482,9 @@ func executeHostile(t *testing.T, prop string, seed uint64, p *HostilePlan) *cor
 	runtime.ReadMemStats(&ms1)
 	if pk {
 		res.Fail(prop, "panic", site+": "+normMsg(msg), "hostile input (%d client bytes, %d backend bytes)", len(in), len(back))
+	}
+	if deepest >= 192 {
+		res.Fail(prop, "balloon", "the call stack of Read grows with the number of records taken in", "%d or more frames deep when the transport was read (%d transport reads, %d client bytes)", deepest, reads, len(in))
 	}
 	alloc := ms1.TotalAlloc - ms0.TotalAlloc
 	bound := uint64(1<<20) + uint64(calls)*40*1024 + 16*uint64(len(in)+len(back))
@@ -620,6 +632,14 @@ func genC08(seed uint64, idx int) *Plan {
 			h.Tail = append(h.Tail, HRec{Kind: "rec", Type: 22, Len: 16384})
 		}
 		h.Back, h.Chunks = nil, nil
+		return &Plan{Kind: "hostile", Seed: seed, Hostile: h}
+	}
+	if idx%25 == 17 && !b.NoECH && !b.Grease {
+		// accepted hello, then a long run of records without payload
+		h.NoKeys, h.Muts, h.Back, h.Chunks = false, nil, nil, nil
+		for n := 2000 + r.IntN(3000); n > 0; n-- {
+			h.Tail = append(h.Tail, HRec{Kind: "rec", Type: []byte{22, 20, 22, 21}[r.IntN(4)], Len: 0})
+		}
 		return &Plan{Kind: "hostile", Seed: seed, Hostile: h}
 	}
 	if idx%25 == 13 && !b.NoECH && !b.Grease {
